@@ -40,6 +40,7 @@ const nOps = 8
 type raceIn struct {
 	g      int
 	d      dmodel.Dialect
+	models []*dmodel.Model // own clones
 	inputs []*Input        // own clones
 	docs   []string        // HCL sources
 	plans  []*migrate.Plan // own plans (planned sequentially before the start)
@@ -208,6 +209,10 @@ func columnTypes(ms []*dmodel.Model) (types []schema.Type, raws []string) {
 	return
 }
 
+// raceInputs builds the goroutines' inputs WITHOUT calling into the code under test beyond the pure
+// constructors of sql/schema (models, HCL text, directory files): the first diff / plan / format /
+// registry / codec call of the process happens inside the concurrent phase, so that lazily
+// initialised state in Atlas is first touched by several goroutines at once.
 func raceInputs(seed uint64, G int) []*raceIn {
 	out := make([]*raceIn, G)
 	dirs := DirInputs(seed, 20)
@@ -218,48 +223,68 @@ func raceInputs(seed uint64, G int) []*raceIn {
 		pool := hclOK(dmodel.Pool(d))
 		_, half, aux := bigModels(seed, d)
 		// own clones: three pool models + the half union; create, edit and realm inputs
-		var ms []*dmodel.Model
 		for k := 0; k < 3; k++ {
-			ms = append(ms, uniq(pool[r.IntN(len(pool))].Clone()))
+			in.models = append(in.models, uniq(pool[r.IntN(len(pool))].Clone()))
 		}
-		ms = append(ms, half.Clone())
-		for k, m := range ms {
+		in.models = append(in.models, half.Clone())
+		for k, m := range in.models {
 			to, ids := walk(m, 3+r.IntN(5), r)
 			in.inputs = append(in.inputs,
 				&Input{Name: fmt.Sprintf("g%d/create-%d", g, k), Dialect: d, To: m},
 				&Input{Name: fmt.Sprintf("g%d/edit-%d", g, k), Dialect: d, From: m.Clone(), To: to, Edits: ids})
 			in.docs = append(in.docs, dmodel.HCL(m))
 		}
-		in.inputs = append(in.inputs, &Input{Name: fmt.Sprintf("g%d/realm", g), Dialect: d, To: ms[3].Clone(), To2: aux.Clone(), Realm: true})
-		for _, x := range in.inputs {
-			_, p, err := diffPlan(x)
-			if err == nil {
-				in.plans = append(in.plans, p)
-			}
-		}
-		if len(in.plans) == 0 {
-			in.plans = append(in.plans, &migrate.Plan{Version: FixedVersion, Name: "empty"})
+		if d != dmodel.SQLite {
+			in.inputs = append(in.inputs, &Input{Name: fmt.Sprintf("g%d/realm", g), Dialect: d, To: in.models[3].Clone(), To2: aux.Clone(), Realm: true})
 		}
 		for k := 0; k < 3; k++ {
 			in.files = append(in.files, append([]HFile(nil), dirs[(g*3+k)%len(dirs)].Files...))
 		}
-		for _, p := range in.plans {
-			var b strings.Builder
-			for _, c := range p.Changes {
-				fmt.Fprintf(&b, "-- %s\n%s;\n", c.Comment, c.Cmd)
-			}
-			in.sqls = append(in.sqls, b.String())
-		}
-		in.types, in.specs = columnTypes(ms)
 		out[g] = in
 	}
 	return out
 }
 
-type raceMismatch struct {
-	g, kind, variant, round int
-	want, got               []byte
+// prepare computes the goroutine's own plans (inputs of the formatter operation), the scanner texts
+// and the type values. It calls the differ, the planners and FormatType: it runs INSIDE the
+// goroutine (concurrently with the others) and once more sequentially for the baseline copy.
+func (in *raceIn) prepare() {
+	for _, x := range in.inputs {
+		_, p, err := diffPlan(x)
+		if err == nil {
+			in.plans = append(in.plans, p)
+		}
+	}
+	if len(in.plans) == 0 {
+		in.plans = append(in.plans, &migrate.Plan{Version: FixedVersion, Name: "empty"})
+	}
+	for _, p := range in.plans {
+		var b strings.Builder
+		for _, c := range p.Changes {
+			fmt.Fprintf(&b, "-- %s\n%s;\n", c.Comment, c.Cmd)
+		}
+		in.sqls = append(in.sqls, b.String())
+	}
+	in.types, in.specs = columnTypes(in.models)
 }
+
+// opKey is the class-level key part of an operation: directory operations do not depend on the dialect.
+func opKey(k int, d dmodel.Dialect) string {
+	if opNames[k] == "hash" || opNames[k] == "memdir" {
+		return opNames[k]
+	}
+	return opNames[k] + "|" + string(d)
+}
+
+// raceRec is one concurrent observation, kept in the goroutine's own slot.
+type raceRec struct {
+	phase     byte // 'A' uninstrumented cold phase, 'B' instrumented phase
+	k, v, seq int
+	digest    string
+	got       []byte // kept for the first observation of (k, v) only
+}
+
+const variants = 4
 
 func runRace(c *rt.Ctx) {
 	G := 16
@@ -267,8 +292,7 @@ func runRace(c *rt.Ctx) {
 		G = c.Workers
 	}
 	c.Workers = G
-	rounds := c.Pick(60, 600)
-	const variants = 4
+	rounds := c.Pick(48, 480)
 	ins := raceInputs(c.Seed, G)
 
 	// the shared, read-only directory under one name; this reference keeps it alive
@@ -278,49 +302,56 @@ func runRace(c *rt.Ctx) {
 	}
 	defer shared.Close()
 
-	// sequential baselines (twice: an operation that is not even sequentially repeatable is the
-	// repetition leg's finding; here it would only blur the concurrent comparison)
-	base := make([][nOps][variants]string, G)
-	unstable := 0
-	for g, in := range ins {
-		for k := 0; k < nOps; k++ {
-			for v := 0; v < variants; v++ {
-				b1, b2 := in.op(k, v), in.op(k, v)
-				base[g][k][v] = sum(b1)
-				if sum(b2) != sum(b1) {
-					unstable++
-					base[g][k][v] = ""
-					c.Violation(fmt.Sprintf("race|sequential-baseline|%s|%s", opNames[k], in.d),
-						fmt.Sprintf("operation %s is not repeatable even sequentially (goroutine inputs %d, variant %d): %s", opNames[k], g, v, firstDiff(b1, b2)),
-						map[string]any{"leg": "race", "seed": c.Seed, "g": g, "op": opNames[k], "variant": v}, nil)
-				}
-				c.Eval(rt.Digest("race-baseline", g, k, v, base[g][k][v]), len(b1) > 0)
-			}
-		}
-	}
-
 	var (
 		inflight [nOps]atomic.Int32
 		matrix   [nOps][nOps]atomic.Int64
-		opsDone  [nOps]atomic.Int64
-		slots    = make([][]raceMismatch, G) // slot g is written by goroutine g only
-		start    = make(chan struct{})
-		ready    sync.WaitGroup
+		slots    = make([][]raceRec, G) // slot g is written by goroutine g only, read after the join
+		startA   = make(chan struct{})
+		startB   = make(chan struct{})
+		readyA   sync.WaitGroup
+		readyB   sync.WaitGroup
 	)
-	ready.Add(G)
-	go func() { ready.Wait(); close(start) }()
+	readyA.Add(G)
+	readyB.Add(G)
+	go func() { readyA.Wait(); close(startA) }()
+	go func() { readyB.Wait(); close(startB) }()
 	c.Par(G, func(g int, w *rt.W) {
 		in := ins[g]
 		w.Begin(map[string]any{"leg": "race", "seed": c.Seed, "g": g, "dialect": in.d, "rounds": rounds})
 		r := rand.New(rand.NewPCG(c.Seed, 0xF00<<8|uint64(g)))
-		ready.Done()
-		<-start
+		seen := map[[2]int]bool{}
+		record := func(phase byte, k, v, seq int, got []byte) {
+			rec := raceRec{phase: phase, k: k, v: v, seq: seq, digest: sum(got)}
+			if !seen[[2]int{k, v}] {
+				seen[[2]int{k, v}] = true
+				rec.got = got
+			}
+			slots[g] = append(slots[g], rec)
+		}
+		// ---- phase A: cold and uninstrumented. After the start barrier the goroutines share NO
+		// monitor state (no atomics, no locks: those would order the goroutines for the detector
+		// and hide races between accesses that are merely close in time). The first thing every
+		// goroutine does is its own prepare(), then every (kind, variant) once, kinds rotated by g.
+		readyA.Done()
+		<-startA
+		in.prepare()
+		seq := 0
+		for j := 0; j < nOps; j++ {
+			k := (j + g) % nOps
+			for v := 0; v < variants; v++ {
+				for y := r.IntN(3); y > 0; y-- {
+					runtime.Gosched()
+				}
+				record('A', k, v, seq, in.op(k, v))
+				seq++
+			}
+		}
+		// ---- phase B: instrumented with the overlap matrix (atomics only).
+		readyB.Done()
+		<-startB
 		for round := 0; round < rounds; round++ {
 			k, v := r.IntN(nOps), r.IntN(variants)
-			if round < nOps {
-				k = (round + g) % nOps // every goroutine starts on a different kind and visits all kinds
-			}
-			for j := r.IntN(4); j > 0; j-- {
+			for y := r.IntN(4); y > 0; y-- {
 				runtime.Gosched()
 			}
 			inflight[k].Add(1)
@@ -331,14 +362,32 @@ func runRace(c *rt.Ctx) {
 			}
 			got := in.op(k, v)
 			inflight[k].Add(-1)
-			opsDone[k].Add(1)
-			if want := base[g][k][v]; want != "" && sum(got) != want {
-				slots[g] = append(slots[g], raceMismatch{g: g, kind: k, variant: v, round: round, got: got})
-			}
+			record('B', k, v, round, got)
 		}
 	})
 
-	// ---- after all goroutines ended ----
+	// ---- after all goroutines ended: sequential baselines on FRESH copies of the inputs ----
+	seqIns := raceInputs(c.Seed, G)
+	base := make([][nOps][variants]string, G)
+	baseBytes := func(g, k, v int) []byte { return seqIns[g].op(k, v) }
+	unstable := 0
+	for g, in := range seqIns {
+		in.prepare()
+		for k := 0; k < nOps; k++ {
+			for v := 0; v < variants; v++ {
+				b1, b2 := in.op(k, v), in.op(k, v)
+				base[g][k][v] = sum(b1)
+				if sum(b2) != sum(b1) {
+					unstable++
+					base[g][k][v] = ""
+					c.Violation("race|sequential-baseline|"+opKey(k, in.d),
+						fmt.Sprintf("operation %s is not repeatable even sequentially (goroutine inputs %d, variant %d): %s", opNames[k], g, v, firstDiff(b1, b2)),
+						map[string]any{"leg": "race", "seed": c.Seed, "g": g, "op": opNames[k], "variant": v}, nil)
+				}
+				c.Eval(rt.Digest("race-baseline", g, k, v, base[g][k][v]), len(b1) > 0)
+			}
+		}
+	}
 	overlap := map[string]int64{}
 	pairs := 0
 	for a := 0; a < nOps; a++ {
@@ -353,26 +402,54 @@ func runRace(c *rt.Ctx) {
 			}
 		}
 	}
+	var opsDone [2][nOps]int64
 	total := int64(0)
+	for g := 0; g < G; g++ {
+		in := seqIns[g]
+		bad := 0
+		for _, rec := range slots[g] {
+			ph := 0
+			if rec.phase == 'B' {
+				ph = 1
+			}
+			opsDone[ph][rec.k]++
+			total++
+			want := base[g][rec.k][rec.v]
+			if want == "" || rec.digest == want {
+				continue
+			}
+			bad++
+			// Is the operation simply not deterministic (then concurrency is not the cause)? Ten more
+			// sequential runs against the baseline digest decide the class of the finding.
+			wantB := baseBytes(g, rec.k, rec.v)
+			seqUnstable := sum(wantB) != want
+			for n := 0; n < 10 && !seqUnstable; n++ {
+				seqUnstable = sum(baseBytes(g, rec.k, rec.v)) != want
+			}
+			cas := map[string]any{"leg": "race", "seed": c.Seed, "g": g, "op": opNames[rec.k], "variant": rec.v, "phase": string(rec.phase)}
+			det := map[string]any{"sequential": clip(wantB, 2000), "concurrent_digest": rec.digest, "sequential_digest": want, "overlap_pairs": overlap}
+			diff := "(only the digest of this concurrent output was kept)"
+			if rec.got != nil {
+				det["concurrent"] = clip(rec.got, 2000)
+				diff = firstDiff(wantB, rec.got)
+			}
+			if seqUnstable {
+				c.Violation("race|sequential-baseline|"+opKey(rec.k, in.d),
+					fmt.Sprintf("operation %s is not repeatable even sequentially (goroutine inputs %d, variant %d): %s", opNames[rec.k], g, rec.v, diff), cas, det)
+				continue
+			}
+			c.Violation("race|output-differs|"+opKey(rec.k, in.d),
+				fmt.Sprintf("operation %s (%s, goroutine %d, phase %c, step %d) produced another output while unrelated operations were running than in 12 sequential runs: %s",
+					opNames[rec.k], in.d, g, rec.phase, rec.seq, diff), cas, det)
+		}
+		c.Eval(rt.Digest("race-goroutine", g, bad), true)
+	}
 	for k := 0; k < nOps; k++ {
-		c.Count("race:ops:"+opNames[k], opsDone[k].Load())
-		total += opsDone[k].Load()
+		c.Count("race:ops-cold-uninstrumented:"+opNames[k], opsDone[0][k])
+		c.Count("race:ops-instrumented:"+opNames[k], opsDone[1][k])
 	}
 	c.Count("race:goroutines", int64(G))
 	c.Count("race:overlapping-kind-pairs-observed", int64(pairs))
-	for _, ms := range slots {
-		for _, m := range ms {
-			m.want = ins[m.g].op(m.kind, m.variant) // sequential again, for the report
-			c.Violation(fmt.Sprintf("race|output-differs|%s|%s", opNames[m.kind], ins[m.g].d),
-				fmt.Sprintf("operation %s (%s, goroutine %d, round %d) produced another output while unrelated operations were running than sequentially: %s",
-					opNames[m.kind], ins[m.g].d, m.g, m.round, firstDiff(m.want, m.got)),
-				map[string]any{"leg": "race", "seed": c.Seed, "g": m.g, "op": opNames[m.kind], "variant": m.variant},
-				map[string]any{"sequential": clip(m.want, 2000), "concurrent": clip(m.got, 2000), "overlap_pairs": overlap})
-		}
-	}
-	for g := 0; g < G; g++ {
-		c.Eval(rt.Digest("race-goroutine", g, len(slots[g])), true)
-	}
 	if !raceEnabled {
 		// without the detector only the output comparison was made: the data-race half is undecided
 		c.Inconclusive("race-detector-not-compiled-in")
@@ -383,10 +460,11 @@ func runRace(c *rt.Ctx) {
 	}
 	c.Sample(map[string]any{"leg": "race", "goroutines": G, "rounds": rounds, "operations": total, "race_detector": raceEnabled,
 		"overlapping_pairs_observed": pairs, "of_possible_pairs": nOps * (nOps + 1) / 2, "verdict": "see violations / race log"})
-	c.Finish(fmt.Sprintf("%d goroutines × %d rounds of mixed input-disjoint operations (EvalHCLBytes, MarshalHCL, Schema/RealmDiff+PlanChanges on the shared Default* values, "+
-		"the six formatter templates, NewHashFile/MemDir.Checksum, OpenMemDir under one shared name (read only) and own names, migrate.Stmts + driver ScanStmts, "+
-		"TypeRegistry Convert/PrintType/Type + FormatType/ParseType) with Gosched jitter after a common start barrier; every concurrent output must equal the digest of the "+
-		"same operation run sequentially before the start; with -race every detector report is a violation (counted by ./check from the GORACE log). "+
-		"extra.overlap lists the operation-kind pairs that were observed in flight together (atomic matrix)", G, rounds),
+	c.Finish(fmt.Sprintf("%d goroutines, input-disjoint operations (EvalHCLBytes, MarshalHCL, Schema/RealmDiff+PlanChanges on the shared Default* values, the six formatter "+
+		"templates, NewHashFile/MemDir.Checksum, OpenMemDir under one shared name (read only) and own names, migrate.Stmts + driver ScanStmts, TypeRegistry "+
+		"Convert/PrintType/Type + FormatType/ParseType). Phase A: the process's FIRST calls into Atlas, all goroutines released together, every (kind, variant) once, no "+
+		"monitor synchronisation at all (maximal power of the race detector, lazy initialisations are hit cold); phase B: %d rounds of seeded kinds with Gosched jitter "+
+		"and an atomic in-flight matrix (extra.overlap = operation-kind pairs observed in flight together). Every concurrent output must equal the digest of the same "+
+		"operation run sequentially afterwards on fresh copies of the inputs; with -race every detector report is a violation (counted by ./check from the GORACE log)", G, rounds),
 		map[string]any{"exhaustive": false, "overlap": overlap, "race_detector": raceEnabled, "unstable_baselines": unstable, "gomaxprocs": runtime.GOMAXPROCS(0)})
 }
